@@ -1625,6 +1625,13 @@ def case_term(spec: dict, obs: dict) -> str:
         clist(tf), "None" if not obs.get("ser_inner") else f"(Some {obs['ser_inner']})", logical)
 
 
+DEFERRED: list = []      # (tag, text, callback(list of failing indices)) — small case files of the side streams
+
+
+def deferred_failing(ck, text: str, tag: str, callback, errname: str) -> None:
+    DEFERRED.append((tag, text, callback, errname))
+
+
 def correspondence(ck, cases: list[tuple[dict, dict]], tag: str) -> list[int]:
     """indices of `cases` where the model (evaluated by Coq) and the implementation's observations disagree"""
     per = 250
@@ -1635,8 +1642,16 @@ def correspondence(ck, cases: list[tuple[dict, dict]], tag: str) -> list[int]:
             case_term(s, o) for s, o in chunk).join(["[", "]"]) + ".\nEval vm_compute in (failing agree cases).\n"
         files.append((f"{tag}_{k // per}", text))
     import concurrent.futures as cf
+    extra = list(DEFERRED)
+    del DEFERRED[:]
     with cf.ThreadPoolExecutor(max_workers=4) as ex:      # at most 4 cores
-        results = list(ex.map(lambda f: ck.coq_eval(f[1], f[0], 900), files))
+        allres = list(ex.map(lambda f: ck.coq_eval(f[1], f[0], 900), [(t_, x_) for t_, x_, _, _ in extra] + files))
+    for (t_, _, cb, errname), (rc, out) in zip(extra, allres[:len(extra)]):
+        if rc != 0:
+            ck.broken(errname, f"case file {t_} did not compile:\n{out[-2000:]}")
+        else:
+            cb(common.parse_nat_list(out))
+    results = allres[len(extra):]
     bad = []
     for (tg, _), (rc, out), k in zip(files, results, range(0, len(cases), per)):
         if rc != 0:
@@ -2010,11 +2025,10 @@ def type_casting_stream(ck) -> None:
     text = CASE_HEADER + "Definition rows : list (N * list N * N * list N) :=\n  " + clist(
         f"({k}, {nl(d)}, {n}, {nl(o)})" for k, d, n, o in rows).replace("; (", ";\n  (") + \
         ".\nEval vm_compute in (failing tc_agree rows).\n"
-    try:
-        for i in ck.coq_failing(text, "type_casting")[:5]:
+    def cb(fl):
+        for i in fl[:5]:
             ck.broken("correspondence:type_casting", json.dumps({"case": meta[i], "input": rows[i][1], "n": rows[i][2], "impl": rows[i][3]}))
-    except RuntimeError as e:
-        ck.broken("correspondence:case-file-type_casting", str(e))
+    deferred_failing(ck, text, "type_casting", cb, "correspondence:case-file-type_casting")
 
 
 def nbytes_stream(ck, corpus=()) -> None:
@@ -2049,11 +2063,10 @@ def nbytes_stream(ck, corpus=()) -> None:
     text = CASE_HEADER + "Definition rows : list (N * list N * N) :=\n  " + clist(
         f"({d}, {clist(cN(x) for x in sh)}, {cN(nb)})" for d, sh, nb in rows).replace("; (", ";\n  (") + \
         ".\nEval vm_compute in (failing nb_agree rows).\n"
-    try:
-        for i in ck.coq_failing(text, "nbytes")[:5]:
+    def cb(fl):
+        for i in fl[:5]:
             ck.broken("correspondence:nbytes_code", json.dumps({"dtype": rows[i][0], "shape": rows[i][1], "impl_nbytes": rows[i][2]}))
-    except RuntimeError as e:
-        ck.broken("correspondence:case-file-nbytes", str(e))
+    deferred_failing(ck, text, "nbytes", cb, "correspondence:case-file-nbytes")
 
 
 def run(ck) -> None:
@@ -2074,12 +2087,23 @@ def run(ck) -> None:
     ck.coverage["rule"] = ("non-trivial = sub-byte dtype with a partial last byte, external data with a prefix or ending "
                            "at end of file, proto storage field other than raw_data, tofile at a non-zero position, "
                            "size 0, or a malformed input")
+    import time as _time
+    _t = [_time.time()]
+
+    def lap(tag):
+        ck.coverage.setdefault("phase_seconds", {})[tag] = round(_time.time() - _t[0], 1)
+        _t[0] = _time.time()
     generate(ck)
     ck.prove()
+    lap("generate+prove")
     # the comparison functions used by the case files are not in the closure of Property.v
-    rc, out = common.make(["theories/C04/Tie.vo"], timeout=600)
-    if rc != 0:
-        ck.broken("build:C04/Tie.v", out[-2000:])
+    tie_v, tie_vo = (os.path.join(common.THEORIES, "C04", x) for x in ("Tie.v", "Tie.vo"))
+    deps = [tie_v, os.path.join(common.THEORIES, "C04", "Model.vo"), os.path.join(common.GEN, "C04Gen.vo")]
+    if not os.path.exists(tie_vo) or any(os.path.exists(d) and os.path.getmtime(d) > os.path.getmtime(tie_vo) for d in deps):
+        # own file, own directory: compiled directly (the global coq lock would serialise us behind other properties)
+        rc, out = common.sh(["timeout", "300", "coqc", "-Q", "theories", "IRV", "-w", "-all", "theories/C04/Tie.v"], cwd=common.COQ, timeout=330)
+        if rc != 0:
+            ck.broken("build:C04/Tie.v", out[-2000:])
     env_contract_subbyte(ck)
     tables_runtime_check(ck)
     type_casting_stream(ck)
@@ -2146,6 +2170,7 @@ def run(ck) -> None:
         if i % 997 == 3:
             ck.sample({"spec": {k: spec[k] for k in ("dtype", "shape", "bits", "rep", "params", "dests")},
                        "tobytes": obs.get("tobytes", ("?",))[1].hex() if obs.get("tobytes", ("raise",))[0] == "ok" else None})
+    lap("streams+observe+oracle")
     ck.coverage["traces_validated_against_impl"] = len(cases)
     try:
         mism = correspondence(ck, cases, "cases")
@@ -2156,6 +2181,7 @@ def run(ck) -> None:
         spec, obs = cases[i]
         ck.broken("correspondence:C04.Model", json.dumps(
             {"spec": spec, "impl": {k: (v if not isinstance(v, bytes) else v.hex()) for k, v in obs.items()}}, default=repr))
+    lap("coq-case-files")
     mism_specs = [cases[i][0] for i in mism]
     for i in mism[:3]:
         ck.notes.append("model/implementation mismatch: " + json.dumps(
@@ -2216,6 +2242,7 @@ def run(ck) -> None:
             ck.violation({"kind": "oracle-string", "strings": {"kind": kind, "shape": shape, "strings_hex": [x.hex() for x in ss]},
                           "failures": bad})
 
+    lap("strings+known-findings")
     # ---- oracle failures: shrink and report (one per distinct signature)
     def fails(sp):
         try:
